@@ -6,7 +6,7 @@ from lib import vfmt
 
 PROPERTY = 'C01'
 COMPONENT = 'frontend'
-QUICK = dict(gen=500)
+QUICK = dict(gen=600)
 THOROUGH = dict(gen=15000)
 TRUSTED = ['the sink below the timeout sink is a harness stand-in: it answers what and when the script says',
            'timer actions are observed through a proxy around GLOBAL_TIMER_QUEUE.Schedule; their effects are predicted']
@@ -32,7 +32,7 @@ ASSUMPTIONS = ['timer queue contract (C10): actions run once, at their rounded d
 
 
 def gen_script(rng, tier):
-    if rng.random() < 0.2:
+    if rng.random() < 0.35:
         import e2e
         sc = e2e.gen_script(rng, tier)
         sc['kind'] = 'e2e'
